@@ -9,6 +9,7 @@ Vocabulary as in C05; `RC.NE` = the range is inhabited as far as its own ends te
 import PoetryVerif.Proofs.VRangePred
 import PoetryVerif.Proofs.VRangeWalk
 import PoetryVerif.Proofs.VRangeInv
+import PoetryVerif.Proofs.VRangeSelf
 
 set_option linter.unusedSimpArgs false
 set_option linter.unusedVariables false
@@ -162,10 +163,25 @@ theorem union_answers_sound_allows (rs : List RC) (b : VC) (hokA : UnionOK rs)
   · rw [eu]; exact hxs hxt p hp hreg (by rw [← ev]; exact hvt)
   · exact hys hyf p hp hreg ⟨by rw [← eu]; exact h.1, by rw [← ev]; exact h.2⟩
 
+/-- **a union allows all of itself, and (non-empty) any of itself** -/
+theorem self_allows_union (rs : List RC) (hne : rs ≠ []) (hw : ∀ c ∈ rs, c.WF ∧ c.NE) :
+    VC.allowsAll (.union rs) (.union rs) = .ok true ∧ VC.allowsAny (.union rs) (.union rs) = .ok true :=
+  ⟨union_allowsAll_self rs (fun c hc => (hw c hc).1), union_allowsAny_self rs hne hw⟩
+
+/-- **`union.allows_any(b)` is yes exactly when `union.intersect(b)` is not the empty constraint**: the answer
+never raises, and equals `not intersect.is_empty()` whenever the intersection returns (the two merge walks advance
+in lockstep). -/
+theorem allows_any_iff_intersect_union (rs : List RC) (b : VC)
+    (ho : ∀ c ∈ rs, c.WF ∧ c.NE) (ht : ∀ c ∈ b.flatten, c.WF ∧ c.NE) :
+    ∃ y, VC.allowsAny (.union rs) b = .ok y ∧
+      ∀ res, VC.intersect (.union rs) b = .ok res → y = !res.isEmpty :=
+  union_allowsAny_iff_intersect rs b ho ht
+
 /-- The property at full strength, for arbitrary constraints (unions included).  Proved above for
 non-union operands (`*_member`), range-vs-union containment and the soundness of the union merge walks
-(`allows_all_sound_union`, `allows_any_no_sound_union`, over `allowsPlain`); not proved: `allows_any` ↔ intersection
-and the self laws for unions, and `allows` = `allowsPlain` for unions excluding a single local version. -/
+(`allows_all_sound_union`, `allows_any_no_sound_union`, over `allowsPlain`); also proved: the self laws and `allows_any` ↔ intersection for unions (`self_allows_union`,
+`allows_any_iff_intersect_union`), and the answers against the real `allows` (`union_answers_sound_allows`).
+Not proved: totality of `union.intersect` in general, and the cases `Version`/range `allows_any` union. -/
 def C12_full_statement : Prop :=
   ∀ a b : VC, a.WF → b.WF →
     (∃ x y, VC.allowsAll a b = .ok x ∧ VC.allowsAny a b = .ok y) ∧
